@@ -160,7 +160,7 @@ class LocalFileStore(Store):
         if not os.path.isdir(internal_dir):
             if create_dirs:
                 _logger.debug(f"Creating dir {internal_dir}")
-                os.makedirs(internal_dir)
+                os.makedirs(internal_dir, exist_ok=True)
             else:
                 raise DDSException(
                     f"Path {internal_dir} is not a directory",
@@ -169,7 +169,7 @@ class LocalFileStore(Store):
         if not os.path.isdir(data_dir):
             if create_dirs:
                 _logger.debug(f"Creating dir {data_dir}")
-                os.makedirs(data_dir)
+                os.makedirs(data_dir, exist_ok=True)
             else:
                 raise DDSException(
                     f"Path {data_dir} is not a directory",
@@ -177,7 +177,7 @@ class LocalFileStore(Store):
                 )
         p_blobs = os.path.join(self._root, "blobs")
         if not os.path.exists(p_blobs):
-            os.makedirs(p_blobs)
+            os.makedirs(p_blobs, exist_ok=True)
 
     def __repr__(self):
         return f"LocalFileStore(internal_dir={self._root} data_dir={self._data_root})"
@@ -251,7 +251,7 @@ class LocalFileStore(Store):
             (loc_dir, loc) = self._path_location(path)
             if not os.path.exists(loc_dir):
                 _logger.debug(f"Creating dir {loc_dir}")
-                os.makedirs(loc_dir)
+                os.makedirs(loc_dir, exist_ok=True)
             loc_blob = os.path.join(self._root, "blobs", key)
             if os.path.exists(loc) and os.path.realpath(loc) == loc_blob:
                 _logger.debug(f"Link {loc} up to date")
